@@ -245,16 +245,20 @@ func s3RunCase(c *s3Case, fake *s3Fake, b *ctlog.S3Backend, tr *Trace, st *Stats
 	// the losing request of a hedged pair may still be in flight: what the server ends up holding is judged once it
 	// has dealt with every request it received
 	cancel()
-	for k := 0; k < 4000; k++ {
+	// (a request sent just before the cancellation can still arrive: wait until the server has been quiet for a while)
+	quietSince := time.Now()
+	lastN := -1
+	for deadline := time.Now().Add(6 * time.Second); time.Now().Before(deadline); {
 		fake.mu.Lock()
-		n := fake.inflight[key]
+		n, m := fake.inflight[key], len(fake.seen[key])
 		fake.mu.Unlock()
-		if n == 0 {
+		if n != 0 || m != lastN {
+			quietSince, lastN = time.Now(), m
+		} else if time.Since(quietSince) > 40*time.Millisecond {
 			break
 		}
 		time.Sleep(time.Millisecond)
 	}
-	time.Sleep(2 * time.Millisecond)
 	fake.mu.Lock()
 	seen := append([]string(nil), fake.seen[key]...)
 	o := fake.objs[key]
